@@ -183,6 +183,8 @@ type Worker struct {
 	mergeFails   map[ssa.Instruction]int
 	regionDepth  int
 	RegionsMerged int
+	syncMaps     map[string]*Object
+	opaqueStr    map[int]Value
 	lazyNext     bool
 	LazyBranches int
 	pcH          [][2]uint64
@@ -708,6 +710,10 @@ func (w *Worker) mergeValue(c *Term, a, b Value) (Value, bool) {
 		}
 	case FloatV:
 		if y, ok := b.(FloatV); ok && x == y {
+			return x, true
+		}
+	case *FloatOpaque:
+		if y, ok := b.(*FloatOpaque); ok && x == y {
 			return x, true
 		}
 	case *StructV:
